@@ -18,6 +18,11 @@ CHECKS = {
          "(a) 2-3 OS threads each run a real chain/sampler (MH, Gibbs, HMC, NUTS in same-kind and mixed combinations); scheduling points sit at every user callback (target / conditional evaluation), one thread runs at a time, and ALL schedules with <= 1-2 (quick) / 2-3 (thorough) deviations from run-to-completion are executed; each thread's draws must equal, bit for bit, the same sampler run alone. (b) run() inside private rayon pools of sizes 1..16 equals the stack of chains run alone. (c) seeds {0,1,41,42,2^32,u64::MAX-1,u64::MAX} x {1,3} chains x six sampler configurations built twice are bit-identical, distinct seeds differ, run_progress returns run's draws.",
          "Sequentially consistent interleavings at callback granularity (the library has no unsafe/atomics of its own); rayon's internal scheduling in (b) is free-running. Replay determinism of schedules is checked on every configuration.",
          "DESIGN.md §3 C07"),
+ "C08": ("E4", "model_checking",
+         "exhaustive enumeration of the (n_chains, seed, construction mode) configuration grid with pairwise stream-distinctness oracles on generators, recorded draws and trajectories of the real samplers",
+         "For every n_chains 2..64 (thorough; quick {2,3,8,64}) x seeds {unseeded,0,1,42,2^32,u64::MAX-40,u64::MAX-1,u64::MAX}, with all chains started from one common state: MH (library proposal): proposal generators, first proposals, acceptance generators and 64-step trajectories pairwise distinct; MH with a user-defined seedable proposal: acceptance generator never equal to the proposal generator of the same chain, proposal generators pairwise distinct; HMC: recorded momentum rows and acceptance uniforms of every step pairwise distinct across rows, trajectories distinct; NUTS: trajectories pairwise distinct.",
+         "Unseeded construction uses OS entropy (not owned by the harness); oracle is value-insensitive pairwise inequality (collision probability ~2^-64).",
+         "DESIGN.md §3 C08"),
  "C11": ("E4", "model_checking",
          "bounded-exhaustive input enumeration (all arrays over a 4-letter alphabet for small shapes) + enumerated structured families, against an independent f64 reference and metamorphic oracles",
          "Every array over {-1,0,1,2} of the listed small shapes (quick 1.4e5, thorough 3.5e7 arrays) and every member of fixed structured families up to 16 chains x 5000 draws x 8 parameters is evaluated on the real split_rhat_mean_ess / RunStats / basic_stats and compared with sqrt(var+/W) computed in f64 on the half-chains (either variance-divisor convention, but one and the same on all inputs), plus lower bound, separation ladder, affine/permutation/other-parameter invariance and the run-summary order statistics incl. NaN robustness at every subset of positions.",
